@@ -6,8 +6,8 @@
    the per-band exact occupations. *)
 EXTENDS TetraWeights
 CONSTANTS NB, VALS, STARTS1, STEPS, NEF, THS
-VARIABLES ec, cor, efs, th, kr, G0, Gm, G1
-vars == <<ec, cor, efs, th, kr, G0, Gm, G1>>
+VARIABLES ec, cor, efs, th, kr, G0, Gm, G1, pc
+vars == <<ec, cor, efs, th, kr, G0, Gm, G1, pc>>
 
 BandTables == {bt \in [1..NB -> [1..5 -> VALS]] : \A b \in 1..(NB - 1) : \A i \in 1..5 : bt[b][i] <= bt[b + 1][i]}
 Grids == {[i \in 1..NEF |-> (a1 - 1) + (i - 1) * d] : a1 \in STARTS1, d \in STEPS}
@@ -20,28 +20,47 @@ Groups(e0, cc, ee, d, t, k) ==
                                   [] d = -1 -> RSub(ROne, Occ0(cc, b, x))
                                   [] OTHER -> WeightsTetra(x, cc[b], d, TRUE),
                  e0, cc, ee, d, t, k)
+(* TLC computes initial states in one thread: Init only chooses the input, the action Build (shared by the workers) evaluates
+   the transcription; the properties are stated for the built states *)
 Init == \E bt \in BandTables :
         /\ ec = [b \in 1..NB |-> bt[b][1]]
         /\ cor = [b \in 1..NB |-> <<bt[b][2], bt[b][3], bt[b][4], bt[b][5]>>]
         /\ efs \in Grids /\ th \in THS /\ kr \in BOOLEAN
         /\ (kr => NB % 2 = 0)
         /\ AllAdmissible(cor, efs)
-        /\ G0 = Groups(ec, cor, efs, 0, th, kr)
-        /\ Gm = Groups(ec, cor, efs, -1, th, kr)
-        /\ G1 = Groups(ec, cor, efs, 1, th, kr)
-Next == UNCHANGED vars
+        /\ G0 = <<>> /\ Gm = <<>> /\ G1 = <<>> /\ pc = "input"
+Build == /\ pc = "input" /\ pc' = "done"
+         /\ G0' = Groups(ec, cor, efs, 0, th, kr)
+         /\ Gm' = Groups(ec, cor, efs, -1, th, kr)
+         /\ G1' = Groups(ec, cor, efs, 1, th, kr)
+         /\ UNCHANGED <<ec, cor, efs, th, kr>>
+Next == Build
 Spec == Init /\ [][Next]_vars
+Built == pc = "done"
 
 ExactTotal(n, i) == RSumSeq([b \in 1..NB |-> ClosedOcc(cor[b], efs[i], n)])
 AllCorners == UNION {{ec[b]} \cup {cor[b][i] : i \in 1..4} : b \in 1..NB}
 Assumed == BandsOrderedAtCorners(ec, cor)
-GroupsAreDisjoint == GroupsDisjoint(G0) /\ GroupsDisjoint(Gm) /\ GroupsDisjoint(G1)
+GroupsAreDisjoint == Built => GroupsDisjoint(G0) /\ GroupsDisjoint(Gm) /\ GroupsDisjoint(G1)
 (* with the identity formula (trace over a group = its size) the sea result is the sum of the exact band occupations *)
-SeaComplete == \A i \in 1..NEF : GroupsTotal(G0, i) = ExactTotal(0, i)
-AntiSeaComplete == \A i \in 1..NEF : GroupsTotal(Gm, i) = RSub(RI(NB), ExactTotal(0, i))
-SeaPlusAntiSea == \A i \in 1..NEF : RAdd(GroupsTotal(G0, i), GroupsTotal(Gm, i)) = RI(NB)
-SurfaceComplete == \A i \in 1..NEF : GroupsTotal(G1, i) = ExactTotal(1, i)
-CumDosLimits == \A i \in 1..NEF : /\ efs[i] < Min(AllCorners) => GroupsTotal(G0, i) = RZero
+SeaComplete == Built => \A i \in 1..NEF : GroupsTotal(G0, i) = ExactTotal(0, i)
+AntiSeaComplete == Built => \A i \in 1..NEF : GroupsTotal(Gm, i) = RSub(RI(NB), ExactTotal(0, i))
+SeaPlusAntiSea == Built => \A i \in 1..NEF : RAdd(GroupsTotal(G0, i), GroupsTotal(Gm, i)) = RI(NB)
+SurfaceComplete == Built => \A i \in 1..NEF : GroupsTotal(G1, i) = ExactTotal(1, i)
+(* per band: the weight a calculator applies to band b is the mean of the exact weights over the degenerate group of b
+   (sea: occupation, anti-sea: 1 - occupation, surface: density), whether the band is listed in a group of the scan range
+   or covered by the completion; listed groups are unions of whole degenerate groups *)
+DegGroupOf(b) == LET B == Borders(ec, th, kr) IN B[CHOOSE k \in 1..Len(B) : B[k][1] < b /\ b <= B[k][2]]
+ExactMean(n, b, i) ==
+   LET g == DegGroupOf(b) IN
+   RDivI(RSumSeq([k \in 1..(g[2] - g[1]) |->
+            IF n = -1 THEN RSub(ROne, ClosedOcc(cor[g[1] + k], efs[i], 0)) ELSE ClosedOcc(cor[g[1] + k], efs[i], n)]), g[2] - g[1])
+PerBandExact == Built => \A b \in 1..NB : \A i \in 1..NEF :
+   /\ PerBandWeight(G0, b, i) = ExactMean(0, b, i)
+   /\ PerBandWeight(Gm, b, i) = ExactMean(-1, b, i)
+   /\ PerBandWeight(G1, b, i) = ExactMean(1, b, i)
+WholeDegenerateGroups == Built => UnionsOfDegenerateGroups(G0, ec, th, kr) /\ UnionsOfDegenerateGroups(Gm, ec, th, kr) /\ UnionsOfDegenerateGroups(G1, ec, th, kr)
+CumDosLimits == Built => \A i \in 1..NEF : /\ efs[i] < Min(AllCorners) => GroupsTotal(G0, i) = RZero
                                   /\ efs[i] > Max(AllCorners) => GroupsTotal(G0, i) = RI(NB)
-CumDosMonotone == \A i \in 1..(NEF - 1) : RLe(GroupsTotal(G0, i), GroupsTotal(G0, i + 1))
+CumDosMonotone == Built => \A i \in 1..(NEF - 1) : RLe(GroupsTotal(G0, i), GroupsTotal(G0, i + 1))
 =============================================================================
